@@ -58,6 +58,8 @@ def project_list(tier):
     # second build after a static input was replaced by a directory: the start-up scan cannot
     # hash it, reports an error and drains before the phase starts
     out.append(("static_became_dir", ("f_chain", {}), {"njob": 2}, False, ("f_chain", {}), [("to_dir", "src.txt")]))
+    out.append(("glob_product_late+pending", ("f_fail", {"kind": "globprod2p"}), {"njob": 2}, False,
+                ("f_fail", {"kind": "globprod1"})))
     # second builds: the first build leaves failed steps behind, the plan is then repaired
     for kg in (False, True):
         for first in ("child_and_plan_fail", "fail", "plan_fails"):
